@@ -38,6 +38,7 @@ import (
 	"verifharness/core"
 	"verifharness/memconn"
 	"verifharness/protos"
+	"verifharness/quiesce"
 	"verifharness/wire"
 )
 
@@ -113,6 +114,16 @@ func cells(tierName string) []Cell {
 			}
 		}
 	}
+	// caller-side result receiver shapes: typed receiver / no receiver at all (result == nil), sync Call and
+	// AsyncCall, every marker combination; one fresh link per call because a call that never completes
+	// wedges its session
+	for _, p := range protoNames {
+		for _, b := range []string{"jstruct", "jbytes", "pbmsg"} {
+			for _, k := range []string{"eq16", "diff16-32"} {
+				out = append(out, Cell{Idx: len(out), Class: "result-receiver", Proto: p, Body: b, Keys: k, Dir: "a2b", Scope: "global", Flavour: "receiver-shapes"})
+			}
+		}
+	}
 	// one side without the plug-in: not covered by the property statement ("when both peers use the secure
 	// plugin"); observed and counted, never judged
 	for _, p := range protoNames {
@@ -148,6 +159,8 @@ type Op struct {
 	Size    int    `json:"size"`
 	SizeCl  string `json:"size_class"`
 	Shape   string `json:"shape,omitempty"`         // "" token + padding of Size bytes | nil | empty | b15 | b16 | b17 | b32 (body of exactly n plaintext bytes)
+	Recv    string `json:"receiver,omitempty"`      // "" typed (matrix) | typed | nil : the result argument passed to Call
+	Via     string `json:"via,omitempty"`           // sync (Session.Call in a goroutine) | async (AsyncCall)
 	HErr    bool   `json:"handler_error,omitempty"` // the call handler returns an error status instead of a result
 	Phase   string `json:"phase,omitempty"`         // "" matrix order | trigger | probe (sequence pairs) | concurrent
 	After   string `json:"after,omitempty"`         // for a probe: the operation that preceded it on the session
@@ -643,15 +656,16 @@ type opRec struct {
 	resTok  string
 	enforce bool
 
-	mu      sync.Mutex
-	runs    int
-	gotArg  interface{}
-	gotMeta string      // X-Secure / X-Accept-Secure as seen by the handler
-	pushSt  string      // what Push() returned
-	sawSec  string      // value of X-Secure as seen by the handler
-	wantArg interface{} // what the handler must receive (differs from arg only for a nil body)
-	wantRes interface{} // what the caller must receive
-	gate    *concGate
+	mu       sync.Mutex
+	runs     int
+	gotArg   interface{}
+	gotMeta  string      // X-Secure / X-Accept-Secure as seen by the handler
+	pushSt   string      // what Push() returned
+	sawSec   string      // value of X-Secure as seen by the handler
+	returned bool        // the call handler reached its return statement
+	wantArg  interface{} // what the handler must receive (differs from arg only for a nil body)
+	wantRes  interface{} // what the caller must receive
+	gate     *concGate
 
 	// observer records
 	outBody   map[string][]byte // "call" | "push" | "reply" -> body bytes handed to the protocol
@@ -729,6 +743,9 @@ func (g *concGate) arrive() {
 var errNoRec = erpc.NewStatus(599, "c17 harness: no operation record for this request", "")
 
 func reply(ctx erpc.CallCtx, rec *opRec) *erpc.Status {
+	rec.mu.Lock()
+	rec.returned = true
+	rec.mu.Unlock()
 	if rec.enforce {
 		secure.EnforceSecure(ctx.Output())
 	}
@@ -970,7 +987,7 @@ func (cr *cellRun) add(f finding) {
 // tag is the scenario tag appended to the marker class in fingerprints.
 func (cr *cellRun) tag(op Op) string {
 	t := ""
-	if cr.c.Flavour != "" {
+	if cr.c.Flavour == "swap-nonempty" {
 		t = "@" + cr.c.Flavour
 	}
 	if op.Phase == "concurrent" {
@@ -985,6 +1002,12 @@ func (cr *cellRun) tag(op Op) string {
 	}
 	if op.HErr {
 		t += "@handler-error"
+	}
+	switch op.Recv {
+	case "nil":
+		t += "@nil-result"
+	case "typed":
+		t += "@typed-result"
 	}
 	return t
 }
@@ -1051,6 +1074,10 @@ const (
 )
 
 func runCell(id string, c Cell, seedv int64) {
+	if c.Flavour == "receiver-shapes" {
+		runRecvCell(id, c, seedv)
+		return
+	}
 	r := core.NewRand(seedv, int64(c.Idx), 17)
 	p := protos.ByName(c.Proto)
 	cr := &cellRun{c: c, p: p, stats: map[string]int64{}}
@@ -1326,6 +1353,244 @@ func runCell(id string, c Cell, seedv int64) {
 	cr.emit(id, sig)
 }
 
+// runRecvCell: result receiver shapes. Every call runs on its own fresh link between the cell's two peers.
+// Completion is decided without a clock: the call completes, or the process becomes quiescent (no goroutine
+// can run any more) with both sessions healthy and the handler finished while the call is still pending.
+func runRecvCell(id string, c Cell, seedv int64) {
+	r := core.NewRand(seedv, int64(c.Idx), 23)
+	p := protos.ByName(c.Proto)
+	cr := &cellRun{c: c, p: p, stats: map[string]int64{}}
+	ka, kb := keysFor(c.Keys, r)
+	equalKeys := ka == kb
+	cr.verA, cr.verB = goutil.Md5([]byte(ka)), goutil.Md5([]byte(kb))
+	pa := erpc.NewPeer(erpc.PeerConfig{}, secure.NewPlugin(codeA, ka))
+	pb2 := erpc.NewPeer(erpc.PeerConfig{}, secure.NewPlugin(codeB, kb))
+	register(pa)
+	rt := register(pb2)
+	cid := codecID(c.Body)
+	cur.Store((*opRec)(nil))
+
+	bounded := func(f func(), d time.Duration) bool {
+		done := make(chan struct{})
+		go func() { f(); close(done) }()
+		select {
+		case <-done:
+			return true
+		case <-time.After(d):
+			return false
+		}
+	}
+
+	var ops []Op
+	for _, recv := range []string{"typed", "nil"} {
+		for _, via := range []string{"sync", "async"} {
+			for _, m := range markers {
+				for _, enf := range []bool{false, true} {
+					ops = append(ops, Op{N: len(ops), Kind: "call", Marker: m, Enforce: enf, Size: 40, SizeCl: "small", Recv: recv, Via: via})
+				}
+			}
+		}
+	}
+	for _, op := range ops {
+		l, err := bed.Connect(pa, pb2, p.Func, p.Func, nil)
+		if err != nil {
+			cr.unsure("call", op, "connect: "+err.Error(), nil)
+			continue
+		}
+		rec := &opRec{id: fmt.Sprintf("%s.%d.%d", id, *batch, op.N), op: op, enforce: op.Enforce,
+			outBody: map[string][]byte{}, outCodec: map[string]byte{}, outSecure: map[string]string{}, outErr: map[string]string{}}
+		rec.argTok, rec.resTok = newToken(r), newToken(r)
+		rec.arg = makeValue(c.Body, rec.argTok, op.Size, r)
+		rec.res = makeValue(c.Body, rec.resTok, op.Size, r)
+		rec.wantArg, rec.wantRes = rec.arg, rec.res
+		regMu.Lock()
+		reg[rec.id] = rec
+		regMu.Unlock()
+
+		var holder interface{}
+		if op.Recv == "typed" {
+			holder = newHolder(c.Body)
+		}
+		set := append([]erpc.MessageSetting{erpc.WithBodyCodec(cid), erpc.WithSetMeta("Id", rec.id)}, markerSettings(op.Marker)...)
+		ch := make(chan erpc.CallCmd, 1)
+		if op.Via == "async" {
+			l.A.AsyncCall(rt.call[c.Body], rec.arg, holder, ch, set...)
+		} else {
+			go func() { ch <- l.A.Call(rt.call[c.Body], rec.arg, holder, set...) }()
+		}
+		var cmd erpc.CallCmd
+		poll := func() bool {
+			if cmd != nil {
+				return true
+			}
+			select {
+			case cmd = <-ch:
+				return true
+			default:
+				return false
+			}
+		}
+		bed.WaitUntil(3*time.Millisecond, poll)
+		outcome := "completed"
+		var q quiesce.Result
+		if !poll() {
+			q = quiesce.Wait(quiesce.Options{Timeout: 20 * time.Second})
+			switch {
+			case poll():
+			case q.Quiescent:
+				outcome = "pending-at-quiescence"
+			default:
+				outcome = "not-quiescent"
+			}
+		}
+		cr.checked++
+		cr.nontrivial("call", op)
+		switch outcome {
+		case "completed":
+			cr.stats["receiver_shape_calls_completed"]++
+			cr.checkCompletion(rec, cmd, equalKeys)
+			if !bounded(func() { l.A.Close(); l.B.Close() }, opTimeout) {
+				cr.stats["cleanup_abandoned"]++
+				l.CA.Sever(false)
+			}
+		case "not-quiescent":
+			cr.unsure("call", op, "the call did not complete and the process did not become quiescent within the watchdog", nil)
+			l.CA.Sever(false)
+			cr.stats["cleanup_abandoned"]++
+		default:
+			rec.mu.Lock()
+			runs, returned := rec.runs, rec.returned
+			rec.mu.Unlock()
+			healthyA, healthyB := l.A.Health(), l.B.Health()
+			// goroutines blocked inside a handler context, without those left behind by earlier calls of this process
+			var fresh []quiesce.G
+			for _, g := range quiesce.Blocked(q.Dump, "github.com/henrylee2cn/erpc/v6.(*handlerCtx)") {
+				if !seenBlocked[g.ID] {
+					seenBlocked[g.ID] = true
+					fresh = append(fresh, g)
+				}
+			}
+			blocked := quiesce.Brief(fresh)
+			if len(blocked) > 4 {
+				blocked = blocked[:4]
+			}
+			// does a graceful Close of the caller's session return? (decided at quiescence again, not by a clock)
+			closed := make(chan struct{})
+			go func() { l.A.Close(); close(closed) }()
+			q2 := quiesce.Wait(quiesce.Options{Timeout: 10 * time.Second})
+			closeHangs := false
+			select {
+			case <-closed:
+			default:
+				closeHangs = q2.Quiescent
+				cr.stats["cleanup_abandoned"]++
+			}
+			w := map[string]interface{}{"via": op.Via, "receiver": op.Recv, "handler_runs": runs, "handler_returned": returned,
+				"caller_session_healthy": healthyA, "callee_session_healthy": healthyB, "keys": c.Keys,
+				"blocked_goroutines": blocked, "close_of_caller_session_hangs_too": closeHangs, "quiescence_samples": q.Samples}
+			if healthyA && healthyB && runs == 1 && returned {
+				cr.stats["calls_never_completed"]++
+				cr.violate("call", op, "call-never-completes",
+					fmt.Sprintf("%s call (enforce=%v, %s, result receiver %s): the handler returned its result, both sessions are healthy, the process is quiescent - and the call is still incomplete", op.Marker, op.Enforce, op.Via, op.Recv), w)
+			} else {
+				cr.unsure("call", op, fmt.Sprintf("call pending at quiescence, but the preconditions of the verdict do not hold (handler runs %d, returned %v, sessions healthy %v/%v)", runs, returned, healthyA, healthyB), w)
+			}
+			l.CA.Sever(false) // lets the callee's side go; whatever is wedged stays behind (counted above)
+		}
+		regMu.Lock()
+		delete(reg, rec.id)
+		regMu.Unlock()
+	}
+	if !bounded(func() { pa.Close(); pb2.Close() }, 5*time.Second) {
+		cr.stats["cleanup_abandoned"]++
+	}
+	core.Add("evaluations", cr.checked)
+	for k, v := range cr.stats {
+		core.Add(k, v)
+	}
+	core.Sample(map[string]interface{}{"cell": c, "ops": len(ops), "messages_checked": cr.checked, "stats": cr.stats})
+	cr.emit(id, fmt.Sprintf("%s/%s/%s/receiver-shapes", c.Proto, c.Body, c.Keys))
+}
+
+var seenBlocked = map[string]bool{}
+
+// checkCompletion judges a completed call of the receiver-shapes class: values at the handler, status at the
+// caller, and the result only where a receiver was passed.
+func (cr *cellRun) checkCompletion(rec *opRec, cmd erpc.CallCmd, equalKeys bool) {
+	op := rec.op
+	res, stat := cmd.Reply()
+	rec.mu.Lock()
+	runs, gotArg, gotMeta := rec.runs, rec.gotArg, rec.gotMeta
+	rec.mu.Unlock()
+	marked := hasSecure(op.Marker)
+	replyEnc := false
+	if im := cmd.InputMeta(); im != nil && string(im.Peek(secure.SECURE_META_KEY)) == "true" {
+		replyEnc = true
+	}
+	base := func() map[string]interface{} {
+		return map[string]interface{}{"via": op.Via, "receiver": op.Recv, "status": statusText(stat), "handler_runs": runs,
+			"handler_saw_meta": gotMeta, "reply_x_secure": replyEnc, "keys": cr.c.Keys}
+	}
+	if !equalKeys && marked {
+		cr.stats["wrong_key_requests"]++
+		if runs > 0 {
+			cr.violate("call", op, "wrong-key-handler-ran", fmt.Sprintf("different keys (%s): the handler was invoked for an encrypted request; argument %s", cr.c.Keys, brief(gotArg)), base())
+		}
+		if stat.OK() {
+			cr.violate("call", op, "wrong-key-status-ok", fmt.Sprintf("different keys (%s): the call with an encrypted request completed with status OK", cr.c.Keys), base())
+		}
+		if runs == 0 && !stat.OK() {
+			cr.stats["wrong_key_requests_rejected"]++
+		}
+		return
+	}
+	sym := "value-mismatch"
+	if !marked {
+		sym = "unmarked-altered"
+	}
+	if runs != 1 {
+		cr.violate("call", op, sym, fmt.Sprintf("the handler ran %d time(s) instead of once; caller status %s", runs, statusText(stat)), base())
+		return
+	}
+	if !same(rec.wantArg, gotArg) {
+		w := base()
+		w["handler_arg"], w["original_arg"] = brief(gotArg), brief(rec.wantArg)
+		cr.violate("call", op, sym, fmt.Sprintf("the handler's argument differs from the original: got %s want %s", brief(gotArg), brief(rec.wantArg)), w)
+		return
+	}
+	cr.stats["handler_args_verified"]++
+	cr.checked++
+	cr.nontrivial("reply", op)
+	if !equalKeys && replyEnc {
+		cr.stats["wrong_key_replies"]++
+		if stat.OK() {
+			cr.violate("reply", op, "wrong-key-status-ok", fmt.Sprintf("different keys (%s): the reply was encrypted by the other side, yet the call completed with status OK", cr.c.Keys), base())
+		} else {
+			cr.stats["wrong_key_replies_rejected"]++
+		}
+		return
+	}
+	rsym := "value-mismatch"
+	if !replyEnc {
+		rsym = "unmarked-altered"
+	}
+	if !stat.OK() {
+		cr.violate("reply", op, rsym, fmt.Sprintf("the handler returned a result but the caller got status %s", statusText(stat)), base())
+		return
+	}
+	if op.Recv == "nil" {
+		cr.stats["nil_receiver_calls_completed_ok"]++
+		return // no receiver: nothing is asserted about the result value
+	}
+	if !same(rec.wantRes, res) {
+		w := base()
+		w["caller_result"], w["original_result"] = brief(res), brief(rec.wantRes)
+		cr.violate("reply", op, rsym, fmt.Sprintf("the caller's result differs from what the handler returned: got %s want %s", brief(res), brief(rec.wantRes)), w)
+		return
+	}
+	cr.stats["caller_results_verified"]++
+}
+
 // emit reports the cell: one result per distinct violation fingerprint, else inconclusive, else held.
 func (cr *cellRun) emit(id, sig string) {
 	c := cr.c
@@ -1383,6 +1648,9 @@ func (cr *cellRun) emit(id, sig string) {
 func (cr *cellRun) nontrivial(role string, op Op) {
 	if cr.observeOnly {
 		return
+	}
+	if op.Recv != "" {
+		core.Distinct("receiver_shapes", fmt.Sprintf("%s/%s/%s/%s/enf=%v/%s/%s/%s", op.Recv, op.Via, role, op.Marker, op.Enforce, cr.c.Proto, cr.c.Body, cr.c.Keys))
 	}
 	if op.Shape != "" {
 		core.Distinct("body_shapes", fmt.Sprintf("%s/%s/%s/%s/%s/%s", role, op.Shape, op.Marker, cr.c.Body, cr.c.Proto, cr.c.Keys))
